@@ -11,13 +11,15 @@ RULE = ('generated .gnu.version_d / .gnu.version_r / .gnu.version sections in re
         'interleaved out of order (every next/aux link a forward displacement), arbitrary 16-bit '
         'index assignments incl. the hidden bit, versym tables of any length over a dynamic symbol '
         'table, both classes and byte orders; iterated in nested, outer-first and lazy-later '
-        'patterns with the shared stream repositioned at every yield and before every call. '
+        'patterns with the shared stream repositioned at every yield and before every call; (links) '
+        'files holding a definition and a need section whose sh_link name different string tables '
+        '(the same names at other offsets), the two sections created and walked in either order. '
         'distinct = (kind, class, order, layout style, entry count class, aux count class).')
 ASSUMPTIONS = [
     'displacement fields are unsigned, so only forward links are encodable',
     'indices are unique among definitions and among non-zero requirement auxiliaries',
 ]
-KINDS = {'verdef': (1500, 40000, 0), 'verneed': (1500, 40000, 0), 'versym': (1000, 20000, 0)}
+KINDS = {'verdef': (1500, 40000, 0), 'verneed': (1500, 40000, 0), 'versym': (1000, 20000, 0), 'links': (400, 8000, 0)}
 FLOOR = {'quick': 3000, 'thorough': 80000}
 REACH = ['elftools.elf.gnuversions:GNUVersionSection._iter_version_auxiliaries',
          'elftools.elf.gnuversions:GNUVersionSection.iter_versions',
@@ -284,3 +286,73 @@ def run_case(kind, idx, rng, sh):
             return
     sh.held((kind, cls, le, style, pattern, min(len(plan), 6), max([len(p['aux']) for p in plan] or [0])))
     sh.sample({'kind': kind, 'layout': style, 'entries': want[:2]}, kind=kind)
+
+
+# ---- both version sections in one file, each resolving names through the string table its own sh_link names
+_base_run_case = run_case
+
+
+def run_case(kind, idx, rng, sh):
+    if kind != 'links':
+        return _base_run_case(kind, idx, rng, sh)
+    from elftools.elf.elffile import ELFFile
+    cls = rng.choice([32, 64])
+    le = rng.random() < 0.5
+    E = '<' if le else '>'
+    tab_d, so_d = make_strtab(rng)
+    tab_r, so_r = make_strtab(rng)
+    tab_r = b'\0xy\0' + tab_r[1:]               # another length and other offsets than the first table
+    so_r = {k: v + 3 for k, v in so_r.items()}
+    keys = sorted(so_d)
+    same_table = rng.random() < 0.25             # the usual layout: one table for both
+    defs = [dict(ndx=i + 1, names=[rng.choice(keys) for _ in range(rng.choice([1, 2]))]) for i in range(rng.choice([1, 2, 3]))]
+    needs = [dict(file=rng.choice(keys), aux=[dict(name=rng.choice(keys), other=10 + 4 * f + j) for j in range(rng.choice([1, 2]))])
+             for f in range(rng.choice([1, 2]))]
+    so_need = so_d if same_table else so_r
+    vd = b''
+    for i, d in enumerate(defs):
+        size = 20 + 8 * len(d['names'])
+        vd += struct.pack(E + 'HHHHIII', 1, 0, d['ndx'], len(d['names']), 0, 20, 0 if i == len(defs) - 1 else size)
+        for j, n in enumerate(d['names']):
+            vd += struct.pack(E + 'II', so_d[n], 0 if j == len(d['names']) - 1 else 8)
+    vn = b''
+    for f, nd in enumerate(needs):
+        vn += struct.pack(E + 'HHIII', 1, len(nd['aux']), so_need[nd['file']], 16, 0 if f == len(needs) - 1 else 16 + 16 * len(nd['aux']))
+        for j, a in enumerate(nd['aux']):
+            vn += struct.pack(E + 'IHHII', 0, 0, a['other'], so_need[a['name']], 0 if j == len(nd['aux']) - 1 else 16)
+    secs = [elfgen.Sec('.dynstr', 3, flags=2, data=tab_d), elfgen.Sec('.verstr', 3, flags=2, data=tab_r),
+            elfgen.Sec('.gnu.version_d', 0x6ffffffd, flags=2, data=vd, link='.dynstr', info=len(defs), align=4),
+            elfgen.Sec('.gnu.version_r', 0x6ffffffe, flags=2, data=vn, link='.dynstr' if same_table else '.verstr', info=len(needs), align=4)]
+    rng.shuffle(secs)
+    img, info = elfgen.build(cls=cls, le=le, machine=rng.choice([3, 62, 40, 183]), etype=3, sections=secs, rng=rng)
+    st = TracedBytesIO(img)
+    ef = ELFFile(st)
+    want = {'def': [(d['ndx'], list(d['names'])) for d in defs],
+            'need': [(nd['file'], [(a['name'], a['other']) for a in nd['aux']]) for nd in needs]}
+    steps = ['def', 'need'] if rng.random() < 0.5 else ['need', 'def']
+    steps += [rng.choice(['def', 'need']) for _ in range(rng.choice([0, 2, 4]))]
+    held = {}
+    for step, which in enumerate(steps):
+        name = '.gnu.version_d' if which == 'def' else '.gnu.version_r'
+        poison([st], rng)
+        sec = held[which] if which in held and rng.random() < 0.5 else ef.get_section_by_name(name)
+        held[which] = sec
+        if which == 'def':
+            got = [(v['vd_ndx'], [a.name for a in PoisonedIter(aux, [st], rng, sh.counters)]) for v, aux in sec.iter_versions()]
+        else:
+            got = [(v.name, [(a.name, a['vna_other']) for a in PoisonedIter(aux, [st], rng, sh.counters)]) for v, aux in sec.iter_versions()]
+        if got != want[which]:
+            sh.violation('C15:names of the version %s section resolved through another table than its sh_link names (%s)' % (
+                'definition' if which == 'def' else 'need',
+                'first section touched' if step == 0 else 'after the other version section was created'),
+                steps=steps[:step + 1], got=got[:3], want=want[which][:3], same_table=same_table)
+            return
+        if which == 'need':
+            a = needs[-1]['aux'][-1]
+            poison([st], rng)
+            r = sec.get_version(a['other'])
+            if r is None or r[1].name != a['name'] or r[0].name != needs[-1]['file']:
+                sh.violation('C15:get_version of a need section whose names live in its own string table', got=None if r is None else (r[0].name, r[1].name))
+                return
+    sh.held(('links', cls, le, same_table, steps[0], len(steps)), n=len(steps))
+    sh.sample({'kind': 'links', 'same_table': same_table, 'order': steps}, kind='links')
